@@ -84,6 +84,12 @@ def grid_dataset(ctx, conv, shape, as_coords=True):
         lon = numpy.array([100 + 2 * i + 0.25 * i * i for i in range(nx)])
         ds = builders.cf1d(ny, nx, lat=lat, lon=lon, lat_bounds=numpy.stack([lat - 0.375, lat + 0.5], axis=-1),
                            lon_bounds=numpy.stack([lon - 0.75, lon + 0.875], axis=-1), data_vars=data, as_coords=as_coords)
+        if as_coords:
+            # bounds variables that repeat the units / standard name of their coordinate (CF allows it, files do it);
+            # the coordinates themselves come first in the dataset
+            ds = ds[['lat', 'lon'] + [n for n in ds.variables if n not in ('lat', 'lon')]]
+            ds['lat_bnds'].attrs.update(units='degrees_north', standard_name='latitude')
+            ds['lon_bnds'].attrs.update(units='degrees_east', standard_name='longitude')
         cv = CFGrid1D(ds)
     else:
         jj, ii = numpy.meshgrid(numpy.arange(ny, dtype=float), numpy.arange(nx, dtype=float), indexing='ij')
@@ -111,6 +117,8 @@ def mesh_dataset(ctx, mesh, supply, start_index, fill, transposed=False, fill_va
         'w_face': (('nface', 't'), S(ctx, 'wface', (len(faces), 2), 1500)),
         'v_node': (('nnode',), S(ctx, 'vnode', (len(nodes),), 2000)),
         'v_edge': (('t', 'nedge'), S(ctx, 'vedge', (2, ne), 3000)),
+        # decoded from a packed variable (int16 on disk, scale factor 0.01, a fill value): floats in memory, one missing
+        'p_face': (('nface',), numpy.array([24.75, numpy.nan, 3.14, 0.5, -7.25, 1.01, 2.02, 3.03][:len(faces)])),
         'id_face': (('nface',), clipcommon.ids((len(faces),))),
         'id_node': (('nnode',), clipcommon.ids((len(nodes),))),
         'id_edge': (('nedge',), clipcommon.ids((ne,))),
@@ -130,6 +138,7 @@ def mesh_dataset(ctx, mesh, supply, start_index, fill, transposed=False, fill_va
         ne = None
     ds = builders.ugrid(mesh, supply=supply, start_index=start_index, fill=fill, transposed=transposed, with_edges=with_edges, data_vars=data,
                         edge_order=edge_order, fill_value=fill_value, coords_as_coords=coords_as_coords, dtype=dtype)
+    ds['p_face'].encoding.update(dtype=numpy.dtype('int16'), scale_factor=0.01, _FillValue=numpy.int16(-1))
     ds.attrs['title'] = 'clip me'
     return ds, UGrid(ds), (nodes, faces, ne)
 
@@ -316,7 +325,7 @@ def check_mesh_values(ctx, ds, out, info, kept_faces):
         got = [int(v) for v in out[idname].values]
         ctx.check(got == keep, f'{dim}: exactly the selected elements remain, in their original relative order')
         ctx.check(out[idname].dtype == ds[idname].dtype, f'{dim}: integer variable keeps its type')
-    for name, dim, keep in (('v_face', 'nface', sorted(kept_faces)), ('w_face', 'nface', sorted(kept_faces)),
+    for name, dim, keep in (('v_face', 'nface', sorted(kept_faces)), ('w_face', 'nface', sorted(kept_faces)), ('p_face', 'nface', sorted(kept_faces)),
                             ('v_node', 'nnode', keep_nodes), ('v_edge', 'nedge', keep_edges)):
         if dim == 'nedge' and ne is None:
             continue
@@ -406,6 +415,9 @@ def cases(tier, check='values'):
                              # a mesh without edges that stores its face adjacency
                              ('tqp', ('face_face',), dict(start_index=1, fill='nan', with_edges=False)),
                              ('qqq', ('face_face',), dict(start_index=0, fill='attr', with_edges=False)),
+                             # a node that no face uses: clipping with a geometry that covers every face still drops it
+                             ('tqpx', ('edge_node', 'face_edge'), dict(start_index=0, fill='nan')),
+                             ('tqpx', ('edge_node',), dict(start_index=1, fill='attr')),
                              # tables built in memory in other integer types (nothing in the encoding)
                              ('tqp', ('edge_node', 'face_edge'), dict(start_index=1, fill='attr', dtype='int64')),
                              ('tqp', ('edge_node', 'edge_face'), dict(start_index=0, fill='attr', dtype='int16', fill_value=-1))):
